@@ -35,14 +35,38 @@ type Spec struct {
 	// Rd, when not empty, slices the reads of the source (as the io.Pipe the
 	// real differ reads from does); first byte odd: last bytes come with io.EOF.
 	Rd []byte `json:"rd,omitempty"`
+	// Over > 0: the readers the pool hands out for the old files do not end where the files end: Over more
+	// bytes follow (files served from one blob, a file appended to since it was signed). GetSize is exact.
+	Over int `json:"over,omitempty"`
 }
 
-type memPool struct{ files [][]byte }
+type memPool struct {
+	files [][]byte
+	over  int
+	long  [][]byte // files with the extra bytes behind them, built once
+}
 
-func (p *memPool) GetSize(i int64) int64                { return int64(len(p.files[i])) }
-func (p *memPool) GetReader(i int64) (io.Reader, error) { return bytes.NewReader(p.files[i]), nil }
+func (p *memPool) GetSize(i int64) int64 { return int64(len(p.files[i])) }
+func (p *memPool) content(i int64) []byte {
+	if p.over <= 0 {
+		return p.files[i]
+	}
+	if p.long == nil {
+		p.long = make([][]byte, len(p.files))
+	}
+	if p.long[i] == nil {
+		b := make([]byte, 0, len(p.files[i])+p.over)
+		b = append(b, p.files[i]...)
+		for k := 0; k < p.over; k++ {
+			b = append(b, byte('K'+k%7))
+		}
+		p.long[i] = b
+	}
+	return p.long[i]
+}
+func (p *memPool) GetReader(i int64) (io.Reader, error) { return bytes.NewReader(p.content(i)), nil }
 func (p *memPool) GetReadSeeker(i int64) (io.ReadSeeker, error) {
-	return bytes.NewReader(p.files[i]), nil
+	return bytes.NewReader(p.content(i)), nil
 }
 func (p *memPool) Close() error { return nil }
 
@@ -78,6 +102,8 @@ type verdict struct {
 }
 
 // judge runs the differ on (bs, files, src, pref) and applies the oracle.
+var judgeOver int // extra bytes behind every old file's reader for the ApplySingle replay (set by check)
+
 func judge(bs int, files [][]byte, src []byte, pref int64, viaApply bool, rd ...byte) (v verdict) {
 	ctx := ctxFor(bs)
 	hs, err := sign(ctx, files)
@@ -156,7 +182,7 @@ func judge(bs int, files [][]byte, src []byte, pref int64, viaApply bool, rd ...
 	}
 	if viaApply {
 		buf := new(bytes.Buffer)
-		pool := &memPool{files}
+		pool := &memPool{files: files, over: judgeOver}
 		for i, op := range ops {
 			if err := ctx.ApplySingle(buf, pool, op); err != nil {
 				v.fail = fmt.Sprintf("ApplySingle op %d: %v", i, err)
@@ -193,8 +219,18 @@ func check(s Spec) h.Result {
 	if s.BS < 1 {
 		return h.Result{Skip: "bs<1"}
 	}
+	judgeOver = s.Over
+	if s.Over == 0 && s.New.C == nil && (len(src)+len(files))%2 == 1 {
+		judgeOver = 1 + len(src)%5 // literal (enumerated) cases: decided from the case alone
+	}
 	v := judge(s.BS, files, src, int64(s.Pref), true, s.Rd...)
+	if judgeOver > 0 {
+		defer func() { judgeOver = 0 }()
+	}
 	var cl []string
+	if judgeOver > 0 {
+		cl = append(cl, "old-readers:longer-than-the-file")
+	}
 	if len(s.Rd) > 0 {
 		cl = append(cl, "source:sliced-reads")
 		if s.Rd[0]&1 == 1 {
@@ -357,6 +393,9 @@ var propSmall = h.Prop[Spec]{
 		if rapid.IntRange(0, 2).Draw(t, "sliced-source") == 0 {
 			s.Rd = rapid.SliceOfN(rapid.Byte(), 1, 8).Draw(t, "rd")
 		}
+		if rapid.IntRange(0, 2).Draw(t, "long-readers") == 0 {
+			s.Over = rapid.IntRange(1, 9).Draw(t, "over")
+		}
 		return s
 	},
 	Check:     check,
@@ -450,6 +489,9 @@ var propLarge = h.Prop[Spec]{
 		s.Pref = rapid.IntRange(-1, nold-1).Draw(t, "pref")
 		if rapid.IntRange(0, 2).Draw(t, "sliced-source") == 0 {
 			s.Rd = rapid.SliceOfN(rapid.Byte(), 1, 8).Draw(t, "rd")
+		}
+		if rapid.IntRange(0, 2).Draw(t, "long-readers") == 0 {
+			s.Over = rapid.SampledFrom([]int{1, 7, 100000}).Draw(t, "over")
 		}
 		return s
 	},
